@@ -339,6 +339,18 @@ def run_case(case, obs):
                     x = np.round(x * 2) / 2
                     y = np.round(y * 2) / 2
                 judge_from_float(obs, BB, (float(x[0]), float(x[1]), float(y[0]), float(y[1])))
+                # limits that happen to be whole numbers, carried by the number types a caller may hold (a rectangle from x=1 to x=10
+                # is the same rectangle whether its limits are ints, NumPy ints, float32 or float64 values)
+                xi, yi = sorted(int(v) for v in nrng.integers(-50, 50, 2)), sorted(int(v) for v in nrng.integers(-50, 50, 2))
+                kind = int(nrng.integers(5))
+                conv = [int, np.int64, np.int32, np.float32, np.float64][kind]
+                lims = tuple(conv(v) for v in (xi[0], xi[1], yi[0], yi[1]))
+                if nrng.random() < 0.3:
+                    lims = (lims[0], float(lims[1]) + 0.5, lims[2], lims[3])          # mixed types
+                got = as_tuple(BB.from_float(*lims))
+                exp = model_from_float(*[float(v) for v in lims])
+                obs.count('from_float-typed-limits')
+                obs.check(got == exp, 'from_float-not-smallest-cover', f'from_float{lims!r} = {got}, smallest covering box is {exp}', 'from_float')
         elif lane == 'invalid':
             # constructor must refuse non-integers and inverted corners
             for bad, exc in [((0.5, 2, 0, 1), TypeError), ((0, 2.0, 0, 1), TypeError), ((3, 2, 0, 1), ValueError),
